@@ -1,6 +1,7 @@
 import Gql.Proofs.LexerBasic
 import Gql.Proofs.LexerGrammar
 import Gql.Proofs.LexerBlock
+import Gql.Proofs.GapReplace
 import Gql.Proofs.SpecLex
 import Gql.Proofs.C09Misc
 /-!
@@ -124,42 +125,44 @@ Ignored items in front of a suffix changes no kind and no value of its token seq
 theorem ignored_invariance_spec (t : List Nat) (k : Nat) (h : IgnoredRun t k) :
     (specTokenize t).map kv = (specTokenize (t.drop k)).map kv := specTokenize_drop_ignored h
 
-/-- FULL STATEMENT of clause 3: inserting a run of Ignored items at any token boundary of a text
-that lexes gives a text that lexes to the same kinds and values. -/
-def ignored_invariance_full : Prop :=
-  ∀ (pre g post : List Nat) (ts : List Token),
-    lexAll (pre ++ post) = .ok ts → (∃ t ∈ ts, t.start = pre.length ∨ t.stop = pre.length) →
-    IgnoredRun (g ++ post) g.length →
-    ∃ ts', lexAll (pre ++ g ++ post) = .ok ts' ∧ kv (sig ts') = kv (sig ts)
+/-- Clause 3, gap replacement (with prefix stability): let `pre` end right after a token of the text
+(or be empty), and let `G` be a run of Ignored items between `pre` and `post`.  Replacing `G` by
+any other run of Ignored items `G'` that keeps the last token of `pre` separated from `post`
+(`Inert (G' ++ post)`: `G'` non-empty, or `post` empty, or `post` starting with a code point that
+cannot extend a token) gives a text that lexes to the same kinds and values — the tokens before
+the gap and the tokens after it.  `G = []` is insertion, `G' = []` is removal. -/
+theorem ignored_invariance (pre G G' post : List Nat) (ts : List Token)
+    (h : lexAll (pre ++ (G ++ post)) = .ok ts)
+    (hb : pre = [] ∨ ∃ t ∈ ts, t.kind ≠ .eof ∧ t.stop = pre.length)
+    (hG : IgnoredRun (G ++ post) G.length) (hG' : IgnoredRun (G' ++ post) G'.length)
+    (hI : Inert (G' ++ post)) :
+    ∃ ts', lexAll (pre ++ (G' ++ post)) = .ok ts' ∧ kv (sig ts') = kv (sig ts) :=
+  lexAll_gap_replace pre G G' post ts h hb hG hG' hI
 
-/-- Clause 3 on the model, proved for insertion in front of a text (the boundary before the first
-token): if `g` is a run of Ignored items in front of `post`, the lexer accepts `g ++ post`
-exactly when it accepts `post`, with the same kinds and values.  Missing for the full statement:
-stability of the tokens *before* the insertion point. -/
-theorem ignored_invariance_partial (g post : List Nat) (h : IgnoredRun (g ++ post) g.length) :
-    (∀ ts, lexAll post = .ok ts → ∃ ts', lexAll (g ++ post) = .ok ts' ∧ kv (sig ts') = kv (sig ts)) ∧
-    (∀ e, lexAll post = .err e → ∃ e', lexAll (g ++ post) = .err e') := by
-  have hk := ignored_invariance_spec (g ++ post) g.length h
-  rw [List.drop_left] at hk
-  obtain ⟨a1, a2, a3, a4⟩ := lexer_eq_grammar (g ++ post)
-  obtain ⟨b1, b2, b3, b4⟩ := lexer_eq_grammar post
-  constructor
-  · intro ts hts
-    have := b1 ts hts
-    rw [this] at hk
-    cases hsp : specTokenize (g ++ post) with
-    | none => rw [hsp] at hk; simp at hk
-    | some ss =>
-      rw [hsp] at hk
-      obtain ⟨ts', h1, h2⟩ := a3 ss hsp
-      refine ⟨ts', h1, ?_⟩
-      rw [h2]; simpa using hk
-  · intro e he
-    have := b2 e he
-    rw [this] at hk
-    cases hsp : specTokenize (g ++ post) with
-    | none => exact a4 hsp
-    | some ss => rw [hsp] at hk; simp at hk
+/-- Clause 3, insertion: inserting a run of Ignored items `g` (white space, commas, line
+terminators, BOMs, comments — `IgnoredRun (g ++ post) g.length` says that `g` is such a run in
+front of `post`, e.g. a comment must be closed by a line terminator of `g` or of `post`) right
+after any token of a text that lexes, or in front of the text, leaves the kinds and values of
+all tokens unchanged. -/
+theorem ignored_insertion (pre g post : List Nat) (ts : List Token)
+    (h : lexAll (pre ++ post) = .ok ts)
+    (hb : pre = [] ∨ ∃ t ∈ ts, t.kind ≠ .eof ∧ t.stop = pre.length)
+    (hg : IgnoredRun (g ++ post) g.length) :
+    ∃ ts', lexAll (pre ++ (g ++ post)) = .ok ts' ∧ kv (sig ts') = kv (sig ts) := by
+  by_cases hg0 : g = []
+  · subst hg0; exact ⟨ts, by simpa using h, rfl⟩
+  · exact ignored_invariance pre [] g post ts (by simpa using h) hb (.zero _) hg (hg.inert hg0)
+
+/-- Clause 3, rejection is preserved too: if the text with the run `g` inserted after a token
+lexes, so does the text without it whenever `post` cannot extend that token (so a text that does
+not lex is not repaired by inserting Ignored items at such a place, and conversely). -/
+theorem ignored_removal (pre g post : List Nat) (ts : List Token)
+    (h : lexAll (pre ++ (g ++ post)) = .ok ts)
+    (hb : pre = [] ∨ ∃ t ∈ ts, t.kind ≠ .eof ∧ t.stop = pre.length)
+    (hg : IgnoredRun (g ++ post) g.length) (hI : Inert post) :
+    ∃ ts', lexAll (pre ++ post) = .ok ts' ∧ kv (sig ts') = kv (sig ts) := by
+  have := ignored_invariance pre g [] post ts h hb hg (.zero _) (by simpa using hI)
+  simpa using this
 
 -- a BOM, a comment with its line terminator, a comma and a CR LF in front of `a`
 example : IgnoredRun ([0xFEFF, 35, 120, 10, 44, 13, 10] ++ [97]) 7 :=
